@@ -283,7 +283,11 @@ def make_run(world, c, combo, use_contracts, spec_builtins):
                 st.add_vc(cl.name, 'ensures', t, {'level': cl.level})
             for nm, fn in c.event_clauses.items():
                 try:
-                    ok = bool(fn(list(st.events)))
+                    import inspect as _insp
+                    if len(_insp.signature(fn).parameters) >= 3:
+                        ok = bool(fn(list(st.events), dict(args), outcome[1]))      # (events, arguments, result)
+                    else:
+                        ok = bool(fn(list(st.events)))
                 except Exception:      # noqa
                     ok = False
                 st.add_vc(nm, 'events', ok, {'level': c.level, 'events': [list(map(str, e)) for e in st.events][:40]})
@@ -417,7 +421,7 @@ def apply_contract_at_call(I, c, f, args, kwargs, node):
             # kept out of the feasibility solver (definitional facts about the result; feasibility
             # is over-approximated, every VC still carries them)
             st.assume(eval_clause(I, cl.expr, env), lazy=True)
-        st.events.append(('call', c.qualname))
+        st.events.append(('call', c.name, dict(bound), res))
         return res
     finally:
         I.config['old_env'] = saved_old
